@@ -61,13 +61,16 @@ def single_assignments(fnode) -> Dict[str, ast.AST]:
 
 
 class _Subst(ast.NodeTransformer):
-    def __init__(self, env, depth=0):
+    def __init__(self, env, depth=0, recursive=True):
         self.env = env
         self.depth = depth
+        self.recursive = recursive
 
     def visit_Name(self, node):
         if isinstance(node.ctx, ast.Load) and node.id in self.env and self.depth < 8:
             v = clone(self.env[node.id])
+            if not self.recursive:
+                return v
             return _Subst({k: w for k, w in self.env.items() if k != node.id}, self.depth + 1).visit(v)
         return node
 
@@ -75,10 +78,12 @@ class _Subst(ast.NodeTransformer):
         return node
 
 
-def substitute(node, env: Dict[str, ast.AST]):
+def substitute(node, env: Dict[str, ast.AST], recursive=True):
+    """recursive=True: env values are raw right-hand sides (single-assignment locals);
+    recursive=False: env values are already closed (symbolic execution)."""
     if not env:
         return node
-    return _Subst(env).visit(clone(node))
+    return _Subst(env, 0, recursive).visit(clone(node))
 
 
 def norm(node, env=None) -> str:
